@@ -359,6 +359,9 @@ ReadsOf(n) == lastRun[n].reads
 Justified(n, val) ==
     \/ ~lastRun[n].has
     \/ n \in tainted
+    \* cyclic program whose reference valuation is not defined (not CycSimple): `val` says
+    \* nothing about the values the engine legitimately hands out, the run is not judged
+    \/ ~Judged(inputs)
     \/ \E i \in 1..Len(ReadsOf(n)) : val[ReadsOf(n)[i][1]] # ReadsOf(n)[i][2]
 
 BadReads(reads, val) ==
